@@ -87,6 +87,33 @@ func (e *SpecEnv) lookupType(name string) (types.Type, error) {
 		}
 	}
 	var base types.Type
+	if strings.HasPrefix(n, "map[") {
+		depth, k := 0, -1
+		for i := 3; i < len(n); i++ {
+			if n[i] == '[' {
+				depth++
+			} else if n[i] == ']' {
+				depth--
+				if depth == 0 {
+					k = i
+					break
+				}
+			}
+		}
+		if k < 0 {
+			return nil, fmt.Errorf("bad map type %q", name)
+		}
+		kt, err := e.lookupType(n[4:k])
+		if err != nil {
+			return nil, err
+		}
+		vt, err := e.lookupType(n[k+1:])
+		if err != nil {
+			return nil, err
+		}
+		base = types.NewMap(kt, vt)
+		n = ""
+	}
 	switch n {
 	case "Z", "int":
 		base = types.Typ[types.Int]
@@ -103,7 +130,7 @@ func (e *SpecEnv) lookupType(name string) (types.Type, error) {
 			}
 		}
 	}
-	if base == nil {
+	if base == nil && n != "" {
 		pk := e.pkg
 		tn := n
 		if k := strings.Index(n, "."); k >= 0 {
@@ -625,7 +652,55 @@ func (e *SpecEnv) call(n SCall) (Term, error) {
 		if err != nil {
 			return Term{}, err
 		}
+		if t.Sort == "Slice" {
+			return Term{S: fmt.Sprintf("(<= (s_arr %s) %s)", t.S, vc.getCompIn(e.heap, "top", "Int")), Sort: "Bool"}, nil
+		}
 		return Term{S: fmt.Sprintf("(and (not (= %s 0)) (<= %s %s))", t.S, t.S, vc.getCompIn(e.heap, "top", "Int")), Sort: "Bool"}, nil
+	case "arrOf": // arrOf(s): identity of the backing array of slice s (0 for nil)
+		t, err := e.eval(n.Args[0])
+		if err != nil {
+			return Term{}, err
+		}
+		if t.Sort != "Slice" {
+			return Term{}, fmt.Errorf("arrOf needs a slice")
+		}
+		return Term{S: fmt.Sprintf("(s_arr %s)", t.S), Sort: "Int", T: types.Typ[types.Int]}, nil
+	case "localArr": // localArr(s): s is nil or its backing array was allocated after function entry
+		t, err := e.eval(n.Args[0])
+		if err != nil {
+			return Term{}, err
+		}
+		if t.Sort != "Slice" {
+			return Term{}, fmt.Errorf("localArr needs a slice")
+		}
+		top0 := vc.getCompIn(vc.entryHeap, "top", "Int")
+		return Term{S: fmt.Sprintf("(or (= (s_arr %s) 0) (> (s_arr %s) %s))", t.S, t.S, top0), Sort: "Bool"}, nil
+	case "fnval": // fnval(name): the function value of a package-level function
+		id, ok := n.Args[0].(SIdent)
+		if !ok || e.pkg == nil {
+			return Term{}, fmt.Errorf("fnval needs a function name")
+		}
+		for k, fn := range vc.eng.Funcs {
+			if k == e.pkg.Path()+"."+id.Name {
+				return vc.val(fn), nil
+			}
+		}
+		return Term{}, fmt.Errorf("fnval: unknown function %s", id.Name)
+	case "boxed": // boxed(x): x converted to an interface value (as MakeInterface does)
+		t, err := e.eval(n.Args[0])
+		if err != nil {
+			return Term{}, err
+		}
+		if t.T == nil {
+			return Term{}, fmt.Errorf("boxed() of untyped term")
+		}
+		if _, isIface := t.T.Underlying().(*types.Interface); isIface {
+			return t, nil
+		}
+		tag := vc.typeTag(t.T)
+		fn := fmt.Sprintf("box_%d", tag)
+		vc.declare(fmt.Sprintf("(declare-fun %s (%s) Int) ; %s", fn, t.Sort, typeKey(t.T)), fn)
+		return Term{S: fmt.Sprintf("(%s %s)", fn, t.S), Sort: "Int", T: types.NewInterfaceType(nil, nil)}, nil
 	case "sameSlice": // same backing array and offset
 		a, err := e.eval(n.Args[0])
 		if err != nil {
